@@ -151,6 +151,31 @@ def good (required : List Nat) (d : Abs) : Bool := required.all (fun a => d.cont
 
 end Fresh
 
+/-! ## 3b. two runs: values computed from what is read
+
+A second, value-level semantics for the attribute atoms: what `fit` writes is a function `mix` of
+the oracle (this call's inputs: data, parameters, random draws) AND of the attribute values it
+reads; conditions on attributes branch on such a value.  Used for the two-run statement of C03. -/
+namespace NI
+
+structure St where
+  attrs : Nat → Nat
+
+/-- an arbitrary but fixed way of computing a value from the call's inputs and the values read -/
+def mix (n : Nat) (l : List Nat) : Nat := l.foldl (fun acc x => acc * 31 + x + 1) (n + 7)
+
+def sem : Sem Act St where
+  step a n s := match a with
+    | .wattr a reads => ⟨upd s.attrs a (mix n (reads.map s.attrs))⟩
+    | .dattr a => ⟨upd s.attrs a 0⟩
+    | _ => s
+  test c n s := match c with
+    | .rattr reads => mix n (reads.map s.attrs) % 2 = 1
+    | .wattr _ reads => mix n (reads.map s.attrs) % 2 = 1
+    | _ => n % 2 = 1
+
+end NI
+
 /-! ## 4. trace membership: can the skeleton produce an observed sequence of assignments?
 
 Used by the correspondence of C02/C03: the real code is run with attribute assignment traced; the
